@@ -23,16 +23,14 @@
 -/
 namespace Pg.C14
 
-/-! ## Exact dyadic rationals (Python floats cross the wire as `num / 2^exp`) -/
+/-! ## Exact rationals (Python floats cross the wire as `num / 2^exp`; the numeric recombinators
+compute means, which leave the dyadic numbers) -/
 
-structure Q where
-  num : Int
-  exp : Nat
-  deriving Repr, Inhabited
+abbrev Q := Rat
 
-def Q.le (a b : Q) : Bool := decide (a.num * (2 : Int) ^ b.exp ≤ b.num * (2 : Int) ^ a.exp)
-def Q.lt (a b : Q) : Bool := decide (a.num * (2 : Int) ^ b.exp < b.num * (2 : Int) ^ a.exp)
-def Q.eq (a b : Q) : Bool := decide (a.num * (2 : Int) ^ b.exp = b.num * (2 : Int) ^ a.exp)
+def qle (a b : Q) : Bool := decide (a ≤ b)
+def qlt (a b : Q) : Bool := decide (a < b)
+def qeq (a b : Q) : Bool := decide (a = b)
 
 /-! ## Specs and DNA -/
 
@@ -80,7 +78,7 @@ mutual
     | .choices k cands dist srt, .choices subs =>
         decide (subs.length = k) && validSubs cands subs &&
         (!dist || nodupNat (subs.map subVal)) && (!srt || sortedNat (subs.map subVal))
-    | .float lo hi, .float v => lo.le v && v.le hi
+    | .float lo hi, .float v => qle lo v && qle v hi
     | _, _ => false
   def validElems : List GSpec → List DNA → Bool
     | [], [] => true
@@ -116,7 +114,7 @@ mutual
     | .space a, .space b => dnaEqAll a b
     | .choices a, .choices b => dnaEqAll a b
     | .sub _ v d, .sub _ w e => decide (v = w) && dnaEq d e
-    | .float a, .float b => a.eq b
+    | .float a, .float b => qeq a b
     | _, _ => false
   def dnaEqAll : List DNA → List DNA → Bool
     | [], [] => true
@@ -195,7 +193,7 @@ def nextRandom : M Q := do
 /-- `random.uniform(lo, hi)`; the recorded value is checked to lie in `[lo, hi]`. -/
 def nextUniform (lo hi : Q) : M Q := do
   match (← popEv) with
-  | .real k q => if k = .uniform ∧ lo.le q = true ∧ q.le hi = true then pure q else fail .desync
+  | .real k q => if k = .uniform ∧ qle lo q = true ∧ qle q hi = true then pure q else fail .desync
   | _ => fail .desync
 
 def nextOrder : M (List DNA) := do
@@ -743,16 +741,33 @@ def dedupDna : List DNA → List DNA → List DNA
 
 /-- the recorded iteration order is used as far as it is a rearrangement of the model's own
 deduplicated children; every output is one of the model's children whatever the oracle says. -/
+def qnear (a b : Q) : Bool := decide ((a - b) * 1099511627776 ≤ 1 ∧ (b - a) * 1099511627776 ≤ 1)
+
+mutual
+  /-- `dnaEq` up to the rounding of float decisions (|a - b| ≤ 2^-40): the recorded children of a
+  numeric recombinator carry rounded means, the model's own children the exact ones. -/
+  def dnaNear : DNA → DNA → Bool
+    | .space a, .space b => dnaNearAll a b
+    | .choices a, .choices b => dnaNearAll a b
+    | .sub _ v d, .sub _ w e => decide (v = w) && dnaNear d e
+    | .float a, .float b => qnear a b
+    | _, _ => false
+  def dnaNearAll : List DNA → List DNA → Bool
+    | [], [] => true
+    | a :: as, b :: bs => dnaNear a b && dnaNearAll as bs
+    | _, _ => false
+end
+
 def orderBy (mine : List DNA) (rec : List DNA) : List DNA :=
-  let fromRec := rec.filterMap (fun r => mine.find? (dnaEq r))
-  fromRec ++ mine.filter (fun m => !rec.any (dnaEq m))
+  let fromRec := rec.filterMap (fun r => mine.find? (dnaNear r))
+  fromRec ++ mine.filter (fun m => !rec.any (dnaNear m))
 
 def setOrder (children : List DNA) : M (List DNA) := do
   let mine := dedupDna children []
   if mine.length ≤ 1 then pure mine
   else
     let rec ← nextOrder
-    if rec.length == mine.length && mine.all (fun m => rec.any (dnaEq m)) then
+    if rec.length == mine.length && mine.all (fun m => rec.any (dnaNear m)) then
       pure (dedupDna (orderBy mine rec) [])
     else fail .desync
 
@@ -876,7 +891,7 @@ mutual
   def evalChoice : List OpExpr → List Q → Option Nat → Nat → Pop → M Pop
     | op :: ops, pr :: probs, limit, done, p => do
         let r ← nextRandom
-        if r.lt pr then do
+        if qlt r pr then do
           let q ← eval op p
           if limit == some (done + 1) then pure q
           else evalChoice ops probs limit (done + 1) q
